@@ -84,6 +84,14 @@ Proof.
   - cbn [map In]. intros [H|H]; [lia | apply IH; assumption].
 Qed.
 
+Lemma NoDup_app_one_iso (A : Type) (l : list A) (x : A) : NoDup l -> ~ In x l -> NoDup (l ++ [x]).
+Proof.
+  induction l as [|a l IH]; cbn [app]; intros ND NI; [constructor; [intros []|constructor]|].
+  inversion ND as [|a' l' Na ND']; subst. constructor.
+  - intro I. apply in_app_or in I. destruct I as [I|[I|[]]]; [tauto|]. apply NI. left. symmetry. assumption.
+  - apply IH; [assumption|]. intro I. apply NI. right. assumption.
+Qed.
+
 Lemma set_nth_N_In l i x e : In e (set_nth_N l i x) -> e = x \/ In e l.
 Proof.
   revert i. induction l as [|h t IH]; intros [|i]; cbn [set_nth_N In]; try tauto.
@@ -427,6 +435,51 @@ Proof.
   - right. split; [assumption|]. destruct G1 as [G1|G1]; [left; assumption|]. right. intro W. specialize (G1 W). lia.
 Qed.
 
+(* ---------- the effect of a whole stream-loop step on everything outside header decoding ---------- *)
+Definition eff c c' : Prop := base c c' /\ closing_eff c c' /\ done_eff c c'.
+
+Lemma eff_refl c : eff c c.
+Proof. split; [apply base_refl|]. split; [apply closing_eff_refl | left; reflexivity]. Qed.
+
+Lemma eff_trans a b c : eff a b -> eff b c -> eff a c.
+Proof.
+  intros (B1 & C1 & D1) (B2 & C2 & D2).
+  split; [eapply base_trans; eassumption|]. split; [eapply closing_eff_trans; eassumption|].
+  pose proof B1 as (O1 & W1 & _). pose proof B2 as (O2 & _). apply oext_gcount in O1. apply oext_gcount in O2.
+  unfold done_eff in *.
+  destruct D1 as [E1|[E1 G1]]; destruct D2 as [E2|[E2 G2]].
+  - left. congruence.
+  - right. split; [assumption|]. destruct G2 as [G2|G2].
+    + destruct C1 as [[C1 _]|[_ C1]]; [left; congruence|]. right. intro W. specialize (C1 W). lia.
+    + right. intro W. rewrite W1 in G2. specialize (G2 W). lia.
+  - right. split; [congruence|]. destruct G1 as [G1|G1]; [left; assumption|]. right. intro W. specialize (G1 W). lia.
+  - right. split; [assumption|]. destruct G1 as [G1|G1]; [left; assumption|]. right. intro W. specialize (G1 W). lia.
+Qed.
+
+Lemma hmv_eff k a b : hmv k a b -> eff a b.
+Proof. intro M. split; [eapply hmv_base; exact M|]. split; [eapply hmv_closing; exact M | eapply hmv_done; exact M]. Qed.
+
+Lemma hmvs_eff k a b : hmvs k a b -> eff a b.
+Proof. induction 1; [apply eff_refl|]. eapply eff_trans; [eapply hmv_eff; eassumption | assumption]. Qed.
+
+(* nothing but the decoder, the discard registers and the table changed *)
+Lemma eff_quiet c c' : sc_out c' = sc_out c -> sc_wl_dead c' = sc_wl_dead c -> sc_rl_done c' = sc_rl_done c ->
+  sc_readerQ c' = sc_readerQ c -> sc_expectCont c' = sc_expectCont c -> sc_now c' = sc_now c -> sc_closer c' = sc_closer c ->
+  sc_closing c' = sc_closing c -> sc_closeRef c' = sc_closeRef c -> sc_sl_done c' = sc_sl_done c -> eff c c'.
+Proof.
+  intros. split; [apply base_same_out; assumption|]. split; [left; split; assumption | left; assumption].
+Qed.
+
+(* without an error output: nothing happened to sc_closing, and the loop only ends if the connection was closing *)
+Lemma eff_clean c c' : eff c c' -> sc_wl_dead c = false -> (gcount (sc_out c') <= gcount (sc_out c))%nat ->
+  sc_closing c' = sc_closing c /\ sc_closeRef c' = sc_closeRef c /\
+  (sc_sl_done c' = sc_sl_done c \/ (sc_sl_done c' = true /\ sc_closing c = true)).
+Proof.
+  intros (B & C & D) W G. destruct C as [[C1 C2]|[_ C]]; [|specialize (C W); lia].
+  split; [assumption|]. split; [assumption|].
+  destruct D as [D|[D1 [D2|D2]]]; [left; assumption | right; auto | specialize (D2 W); lia].
+Qed.
+
 (* ---------- the invariant ---------- *)
 Definition carry_at c (id : N) : option (N * bytes) :=
   if sc_discardID c =? id then Some (sc_discardFields c, sc_discardPrev c)
@@ -558,5 +611,5 @@ Qed.
 End Moves.
 
 Arguments oext {hstate}. Arguments base {hstate}. Arguments hsame {hstate}. Arguments closing_eff {hstate}.
-Arguments done_eff {hstate}. Arguments hmv {hstate}. Arguments hmvs {hstate}. Arguments carry_at {hstate}.
+Arguments done_eff {hstate}. Arguments eff {hstate}. Arguments hmv {hstate}. Arguments hmvs {hstate}. Arguments carry_at {hstate}.
 Arguments HInv {hstate}.
